@@ -23,6 +23,8 @@ pub enum Fault {
     NonUtf8ImportedModule,
     DanglingSymlink,
     DirectoryNamedLikeTest,
+    /// a test file that is valid UTF-8 but does not parse
+    SyntaxErrorTestFile,
 }
 
 #[derive(Clone, Debug, Serialize)]
@@ -52,7 +54,10 @@ impl Tree {
     fn files(&self) -> Vec<(String, Vec<u8>, bool)> {
         let mut v: Vec<(String, Vec<u8>, bool)> = vec![
             ("conftest.py".into(), b"import pytest\nfrom support import *\nfrom support2 import *\n\n@pytest.fixture\ndef root_fx():\n    return 1\n".to_vec(), true),
-            ("support.py".into(), b"import pytest\n\n@pytest.fixture\ndef support_fx():\n    return 1\n".to_vec(), true),
+            // an imported module that imports a further module itself (second round of the import scan,
+            // in which its sibling support2.py may be unreadable)
+            ("support.py".into(), b"import pytest\nfrom support_deep import *\n\n@pytest.fixture\ndef support_fx():\n    return 1\n".to_vec(), true),
+            ("support_deep.py".into(), b"import pytest\n\n@pytest.fixture\ndef support_deep_fx():\n    return 1\n".to_vec(), true),
             // a second imported module; the fault makes only this one unreadable
             ("support2.py".into(), if self.fault == Fault::NonUtf8ImportedModule { b"import pytest\n\n@pytest.fixture\ndef support2_fx():\n    return '\xe9'\n".to_vec() } else { b"import pytest\n\n@pytest.fixture\ndef support2_fx():\n    return 1\n".to_vec() }, self.fault != Fault::NonUtf8ImportedModule),
             ("test_a.py".into(), test_text("a").into_bytes(), true),
@@ -74,6 +79,10 @@ impl Tree {
             v.push((rel.clone(), test_text(&rel).into_bytes(), false));
             let rel2 = format!("{}{}/conftest.py", prefix, name);
             v.push((rel2.clone(), test_text(&rel2).into_bytes(), false));
+        }
+        if self.fault == Fault::SyntaxErrorTestFile {
+            // scanned and cached (its text is known) but contributes nothing; must not disturb the rest
+            v.push(("pkg/test_broken.py".into(), b"import pytest\n\ndef test_broken(:\n    pass\n".to_vec(), true));
         }
         if self.fault == Fault::NonUtf8TestFile {
             let mut b = test_text("bad").into_bytes();
@@ -123,6 +132,7 @@ impl Tree {
         }
         if s.contains("conftest.py") {
             s.insert("support.py".into());
+            s.insert("support_deep.py".into());
             if self.fault != Fault::NonUtf8ImportedModule {
                 s.insert("support2.py".into());
             }
@@ -143,7 +153,7 @@ fn enumerate(k: usize) -> Vec<Tree> {
             skips.push(Some((n.clone(), d)));
         }
     }
-    let faults = [Fault::None, Fault::NonUtf8TestFile, Fault::NonUtf8ImportedModule, Fault::DanglingSymlink, Fault::DirectoryNamedLikeTest];
+    let faults = [Fault::None, Fault::NonUtf8TestFile, Fault::NonUtf8ImportedModule, Fault::DanglingSymlink, Fault::DirectoryNamedLikeTest, Fault::SyntaxErrorTestFile];
     let mut out = Vec::new();
     for (ni, n) in nears.iter().enumerate() {
         for (si, s) in skips.iter().enumerate() {
@@ -310,6 +320,6 @@ pub fn run(rep: &'static Report) {
     rep.set("distinct_nontrivial", nontrivial.load(Ordering::Relaxed));
     rep.set("traces_validated_against_impl", scans.load(Ordering::Relaxed));
     rep.set("exhaustive", true);
-    rep.set("rule", "real directory trees on tmpfs: base tree {conftest.py importing support.py and support2.py, test_a.py, pkg/b_test.py, pkg/sub/conftest.py importing the root-level support3.py, notes.py} with at most 2 (quick) / 3 (thorough) deviations among: one of 8 near-pattern file names at 2 places, one of 27 ignored directory names (every SKIP_DIRECTORIES entry and *.egg-info) at depth 1..3 holding a test file and a conftest, one of 4 fault kinds (non-UTF-8 test file, non-UTF-8 imported module, dangling symlink, directory named like a test file), one of 4 exclude sets given through pyproject.toml (incl. an invalid glob mixed with a valid one); every tree is created under each root location (plain and below ancestors named like ignored directories or containing 'site-packages'; the root handed over in canonical spelling, through a symbolic link living elsewhere, and with a `..` component) and scanned with the real scan_workspace_with_excludes; oracle: the indexed file set equals the reference discovery model, and every root-relative answer and classification is identical across root locations; conformance: for every exclude set the real server is initialised on two trees and the files contributing workspace symbols must equal the model's set");
+    rep.set("rule", "real directory trees on tmpfs: base tree {conftest.py importing support.py and support2.py, test_a.py, pkg/b_test.py, pkg/sub/conftest.py importing the root-level support3.py, notes.py} with at most 2 (quick) / 3 (thorough) deviations among: one of 8 near-pattern file names at 2 places, one of 27 ignored directory names (every SKIP_DIRECTORIES entry and *.egg-info) at depth 1..3 holding a test file and a conftest, one of 5 fault kinds (non-UTF-8 test file, non-UTF-8 imported module, dangling symlink, directory named like a test file, test file with a syntax error), one of 4 exclude sets given through pyproject.toml (incl. an invalid glob mixed with a valid one); every tree is created under each root location (plain and below ancestors named like ignored directories or containing 'site-packages'; the root handed over in canonical spelling, through a symbolic link living elsewhere, and with a `..` component) and scanned with the real scan_workspace_with_excludes; oracle: the indexed file set equals the reference discovery model, and every root-relative answer and classification is identical across root locations; conformance: for every exclude set the real server is initialised on two trees and the files contributing workspace symbols must equal the model's set");
     rep.assume("permission-denied cannot be produced as root and is not covered; glob semantics are those of the glob crate (the model uses the same matcher, what is judged is how the scanner applies the patterns)");
 }
